@@ -73,7 +73,7 @@ def run(tier, seed, open_findings):
     for _ in range(n):
         k = rng.randrange(1, 4)
         docs.append('<t:r xmlns:t="urn:t" xmlns:xs="http://www.w3.org/2001/XMLSchema" xmlns:xsi="http://www.w3.org/2001/XMLSchema-instance">' + ''.join(
-            f'<t:item id="i{i}" code="{i}"><t:name>n</t:name><t:qty>1</t:qty>' + ('<t:kind>article</t:kind>' if (i + k) % 2 else '') + ('<t:val xsi:type="xs:int">5</t:val>' if (i + k) % 3 == 0 else '') + ''.join(f'<t:sub ref="i{rng.randrange(k)}" codeRef="{rng.randrange(k)}"><t:leaf>1</t:leaf></t:sub>'
+            f'<t:item id="i{i}" code="{i}"><t:name>n</t:name><t:qty>1</t:qty>' + ('<t:kind>article</t:kind>' if (i + k) % 2 else '') + ('<t:val xsi:type="xs:int">5</t:val>' if (i + k) % 3 == 0 else '') + ('<t:mark m="1"/>' if (i + k) % 3 == 1 else '') + ''.join(f'<t:sub ref="i{rng.randrange(k)}" codeRef="{rng.randrange(k)}"><t:leaf>1</t:leaf></t:sub>'
                                                                                       for _ in range(rng.randrange(3))) + '</t:item>' for i in range(k)) + '</t:r>')
     jobs = [(ver, d) for d in docs for ver in ('1.0', '1.1')]
     res = pmap(eval_doc, jobs, chunk=1)
